@@ -239,6 +239,26 @@ def run(run):
             run.check("R2", "update_jump|Jmp::%s.%s" % (v, f), ok, "the input registers of Jmp::%s.%s are not flagged as read" % (v, f), F.loc(g["body"]))
         g, ok = jump_slot("update_call_stub", "CallInd", "target")
         run.check("R2", "update_call_stub|Jmp::CallInd.target", ok, "the input registers of an indirect call target are not flagged as read", F.loc(g["body"]))
+        # the accepted exception of Store.value rests on the stack pointer being EXACT: the address must have the stack frame as
+        # its only possible target (no other relative target, no absolute part, no Top)
+        fex = F.find_fns(name="get_offset_if_exact_stack_pointer")
+        fex = [g for g in fex if g.get("dk") != "Closure"]
+        key = "get_offset_if_exact_stack_pointer|unique-target"
+        if len(fex) != 1:
+            run.undecided("R2", key, "get_offset_if_exact_stack_pointer not found uniquely", None)
+        else:
+            g = fex[0]
+            deep = list(T.walk_deep(F, g["body"], 1))
+            unique = any(T.is_call(x, "get_if_unique_target") for x in deep)
+            other_evidence = any(T.is_call(x, ("len", "get_absolute_value", "contains_top", "is_top", "get_if_absolute_value", "referenced_ids")) for x in deep)
+            rel = any(T.is_call(x, ("get_relative_values", "relative_values", "iter")) for x in deep)
+            compares_stack = any(x.get("k") == "Field" and x.get("fn") == "stack_id" for x in deep)
+            if unique and compares_stack:
+                run.holds("R2", key, "", F.loc(g["body"]))
+            elif rel and compares_stack and not unique and not other_evidence:
+                run.violated("R2", key, "an address counts as an exact stack pointer only if the stack frame is its UNIQUE target; the function looks the stack id up among the relative targets without excluding other targets, an absolute part or Top: a store of a parameter register through a pointer that only MAY point to the stack is then treated as a register spill and the parameter is not reported", F.loc(g["body"]))
+            else:
+                run.undecided("R2", key, "how the uniqueness of the target is established is not recognised", F.loc(g["body"]))
         fn = F.fn("specialize_conditional", mod=CTX)
         cid = None
         for p in fn["params"]:
